@@ -1710,7 +1710,7 @@ func (m *Model) openCleanupOnlyNew(r *Results, rule string, fn *ssa.Function) {
 	visitCleanup = func(in *ssa.Function, isNew func(ssa.Value) bool, depth int) {
 		m.eachCall(in, func(c ssa.CallInstruction) {
 			callee := c.Common().StaticCallee()
-			if callee == nil || !m.inPkg(callee) || !m.deletesFiles(callee) {
+			if callee == nil || !m.inPkg(callee) || !m.deletesFilesVia(c, nil, 0) {
 				return
 			}
 			if guardedNew(c, in, isNew) {
@@ -2622,4 +2622,74 @@ func (m *Model) ruleVIEWSTALE(r *Results) {
 	if n == 0 {
 		r.undecided(rule, "instances", "-", "no caller of the index updater tests the stale parameter")
 	}
+}
+
+// deletesFilesVia: can this call end up removing files? Like deletesFiles(callee), but boolean
+// arguments that are constants at the call (shutDown(ctx, false)) prune the branches of the callee
+// that are not taken for them, transitively.
+func (m *Model) deletesFilesVia(call ssa.CallInstruction, env map[*ssa.Parameter]bool, depth int) bool {
+	f := call.Common().StaticCallee()
+	if f == nil {
+		return false
+	}
+	if f.Pkg != nil && f.Pkg.Pkg.Path() == "os" && (f.Name() == "RemoveAll" || f.Name() == "Remove") {
+		return true
+	}
+	if !m.inPkg(f) || f.Blocks == nil {
+		return false
+	}
+	if depth > 6 {
+		return m.deletesFiles(f)
+	}
+	known := map[*ssa.Parameter]bool{}
+	for i, a := range call.Common().Args {
+		if i >= len(f.Params) {
+			break
+		}
+		a = stripConv(a)
+		if k, ok := a.(*ssa.Const); ok && k.Value != nil && k.Value.Kind() == constant.Bool {
+			known[f.Params[i]] = constant.BoolVal(k.Value)
+		} else if p, ok := a.(*ssa.Parameter); ok {
+			if v, have := env[p]; have {
+				known[f.Params[i]] = v
+			}
+		}
+	}
+	c := newCut()
+	for _, iff := range allIfs(f) {
+		cd := condOf(iff)
+		if cd.Op != token.ILLEGAL || cd.X == nil {
+			continue
+		}
+		if p, ok := stripConv(cd.X).(*ssa.Parameter); ok {
+			if v, have := known[p]; have {
+				c.cutEdge(iff.Block(), cd.succWhen(!v))
+			}
+		}
+	}
+	reach := entryReach(f, c)
+	found := false
+	var visit func(g *ssa.Function)
+	visit = func(g *ssa.Function) {
+		m.eachCall(g, func(c2 ssa.CallInstruction) {
+			if found || (g == f && !reach[c2.Block().Index]) {
+				return
+			}
+			if g != f {
+				// inside a closure of f: no pruning
+				if t := c2.Common().StaticCallee(); t != nil && (m.inPkg(t) && m.deletesFiles(t) || t.Pkg != nil && t.Pkg.Pkg.Path() == "os" && (t.Name() == "RemoveAll" || t.Name() == "Remove")) {
+					found = true
+				}
+				return
+			}
+			if m.deletesFilesVia(c2, known, depth+1) {
+				found = true
+			}
+		})
+		for _, an := range g.AnonFuncs {
+			visit(an)
+		}
+	}
+	visit(f)
+	return found
 }
